@@ -8,6 +8,10 @@ TRUSTED_COMMON = [
 ]
 
 FAMILY_ASSUMPTIONS = {
+    "nolibxml": ["strspn model (/verif/stubs/strspn.h); cbmc's strchr/strcmp/strncmp/strlen models; the buffer is BL arbitrary bytes + NUL allocated with its exact size; next_attr assumes the invariant find_child is shown to establish (attribute text ends before the final byte)"],
+    "base64": ["C-locale isspace (driver), cbmc's strchr model; exact-size malloc'ed buffers"],
+    "printers": ["snprintf C99 contract stub (pieces <= 24 chars); explicit bitmap object with NW stored words; guarded arena for the destination"],
+    "parsers": ["strtoul contract stub (end pointer inside the string, value arbitrary); abstract realloc; cbmc's strchr/strncmp/strlen/memcpy models"],
     "memattrs": [
         "explicit small states: one attribute, <= 4 targets / initiators with arbitrary values, cache marked valid (refresh is not run); strcmp/strdup/realloc as modelled by cbmc",
         "not decided: store/lookup semantics of set_value/get_value, initiator matching by cpuset, convenience attributes, local NUMA node queries, refresh/restrict/dup/XML",
